@@ -552,14 +552,22 @@ fn main() {
     // copy: exhaustive triples for u8 (and u16 in thorough), boundary grid for wide words
     copy_cases::<u8>(&mut ctx, &all8, true);
     if t {
+        // thorough: ALL triples for every width of u16, u32 and usize, selected widths of u64 and u128 (width >= 2)
+        let all32: Vec<usize> = (0..=32).collect();
+        let all64: Vec<usize> = (0..=64).collect();
         copy_cases::<u16>(&mut ctx, &all16, true);
+        copy_cases::<u32>(&mut ctx, &all32, true);
+        copy_cases::<usize>(&mut ctx, &all64, true);
+        copy_cases::<u64>(&mut ctx, &[0, 1, 3, 7, 13, 32, 33, 63, 64], true);
+        copy_cases::<u128>(&mut ctx, &[0, 2, 3, 7, 13, 63, 64, 65, 127, 128], true);
+        copy_cases::<u128>(&mut ctx, &[1], false);
     } else {
         copy_cases::<u16>(&mut ctx, &[0, 1, 3, 7, 8, 9, 15, 16], false);
+        copy_cases::<u32>(&mut ctx, &[0, 1, 3, 7, 13, 16, 17, 31, 32], false);
+        copy_cases::<u64>(&mut ctx, &[0, 1, 3, 7, 13, 32, 33, 63, 64], false);
+        copy_cases::<usize>(&mut ctx, &[0, 1, 3, 5, 7, 13, 21, 32, 33, 59, 63, 64], false);
+        copy_cases::<u128>(&mut ctx, &[0, 1, 3, 7, 13, 64, 65, 127, 128], false);
     }
-    copy_cases::<u32>(&mut ctx, &[0, 1, 3, 7, 13, 16, 17, 31, 32], false);
-    copy_cases::<u64>(&mut ctx, &[0, 1, 3, 7, 13, 32, 33, 63, 64], false);
-    copy_cases::<usize>(&mut ctx, &[0, 1, 3, 5, 7, 13, 21, 32, 33, 59, 63, 64], false);
-    copy_cases::<u128>(&mut ctx, &[0, 1, 3, 7, 13, 64, 65, 127, 128], false);
     slice_copy_cases!(&mut ctx, u8);
     slice_copy_cases!(&mut ctx, usize);
     slice_copy_cases!(&mut ctx, u128);
@@ -568,14 +576,26 @@ fn main() {
     default_apply_case!(&mut ctx, u128);
     apply_cases::<u8>(&mut ctx, &all8);
     apply_cases::<u16>(&mut ctx, if t { &all16 } else { &[0, 1, 5, 8, 11, 16] });
-    apply_cases::<u32>(&mut ctx, &[0, 1, 3, 7, 8, 15, 16, 17, 31, 32]);
-    apply_cases::<u64>(&mut ctx, &[0, 1, 2, 3, 5, 7, 8, 13, 31, 32, 33, 59, 61, 62, 63, 64]);
-    apply_cases::<usize>(&mut ctx, &[0, 1, 2, 3, 5, 7, 8, 13, 31, 32, 33, 59, 61, 62, 63, 64]);
-    apply_cases::<u128>(&mut ctx, &[0, 1, 7, 64, 65, 127, 128]);
-    chunks_cases::<u8>(&mut ctx, &all8);
-    chunks_cases::<u16>(&mut ctx, &[0, 1, 5, 8, 11, 16]);
-    chunks_cases::<usize>(&mut ctx, &[0, 1, 3, 8, 13, 32, 33, 63, 64]);
-    chunks_cases::<u128>(&mut ctx, &[0, 1, 7, 64, 65, 128]);
+    if t {
+        apply_cases::<u32>(&mut ctx, &(0..=32).collect::<Vec<_>>());
+        apply_cases::<u64>(&mut ctx, &(0..=64).collect::<Vec<_>>());
+        apply_cases::<usize>(&mut ctx, &(0..=64).collect::<Vec<_>>());
+        apply_cases::<u128>(&mut ctx, &(0..=128).collect::<Vec<_>>());
+        chunks_cases::<u8>(&mut ctx, &all8);
+        chunks_cases::<u16>(&mut ctx, &all16);
+        chunks_cases::<u32>(&mut ctx, &(0..=32).collect::<Vec<_>>());
+        chunks_cases::<usize>(&mut ctx, &(0..=64).collect::<Vec<_>>());
+        chunks_cases::<u128>(&mut ctx, &[0, 1, 7, 63, 64, 65, 127, 128]);
+    } else {
+        apply_cases::<u32>(&mut ctx, &[0, 1, 3, 7, 8, 15, 16, 17, 31, 32]);
+        apply_cases::<u64>(&mut ctx, &[0, 1, 2, 3, 5, 7, 8, 13, 31, 32, 33, 59, 61, 62, 63, 64]);
+        apply_cases::<usize>(&mut ctx, &[0, 1, 2, 3, 5, 7, 8, 13, 31, 32, 33, 59, 61, 62, 63, 64]);
+        apply_cases::<u128>(&mut ctx, &[0, 1, 7, 64, 65, 127, 128]);
+        chunks_cases::<u8>(&mut ctx, &all8);
+        chunks_cases::<u16>(&mut ctx, &[0, 1, 5, 8, 11, 16]);
+        chunks_cases::<usize>(&mut ctx, &[0, 1, 3, 8, 13, 32, 33, 63, 64]);
+        chunks_cases::<u128>(&mut ctx, &[0, 1, 7, 64, 65, 128]);
+    }
     unaligned_cases::<u8>(&mut ctx);
     unaligned_cases::<u16>(&mut ctx);
     unaligned_cases::<u32>(&mut ctx);
